@@ -18,10 +18,15 @@
   resumption law of `collect` (shared verbatim by the UBJSON parser), is below.
   UBJSON and JSON: executable mirror, correspondence with depth/buffer hooks after every
   chunk, oracle over all cut sets of short documents and every two-way cut of longer ones.
+
+  JSON PARSER (namespace `SF.PropsJson.C02`): the same theorem in full — for every byte string,
+  every chunking and every visitor fault index `Write` per chunk + end of input gives the verdict
+  and the events of whole-buffer `Parse`; any two chunkings agree.
 -/
 import SF.Cbor.Parse
 import SF.Proofs.CborCollect
 import SF.Proofs.CborChunkTop
+import SF.Proofs.JsonParseTop
 namespace SF.Props.C02
 open SF SF.Cbor SF.Cbor.Parse
 
@@ -98,3 +103,24 @@ example : (writeChunks {} [[0x82], [0x01, 0x62], [], [0x61], [0x62]]).1.evs = (p
   decide +kernel
 
 end SF.Props.C02
+
+/-! ## JSON parser (SF/Json/Parse.lean; proofs SF/Proofs/Json{Basic,Step,Loop,Shape,Run,Eqv,Peel*,Chunk,Grammar,Trunc,ParseTop}.lean) -/
+
+namespace SF.PropsJson.C02
+open SF SF.Json SF.Json.Parse SF.Json.Float SF.Json.ParseP SF.Json.Grammar
+
+/-- C02 for JSON: `Write` per chunk + end of input (`ParseReader`), for ANY byte string and ANY
+chunking, gives the verdict and the events of `Parse` of the concatenation; also with a visitor
+failing from its k-th event -/
+theorem json_writeChunks_eq_parse (failAt : Option Nat) (cs : List Bytes) :
+    (writeChunks (init failAt) cs).2 = (parse (init failAt) cs.flatten).2 ∧
+    events (writeChunks (init failAt) cs).1 = events (parse (init failAt) cs.flatten).1 :=
+  SF.Json.ParseTop.json_writeChunks_eq_parse failAt cs
+
+/-- … any two chunkings of the same bytes: same verdict, same events -/
+theorem json_chunk_independent (failAt : Option Nat) (cs1 cs2 : List Bytes) (h : cs1.flatten = cs2.flatten) :
+    (writeChunks (init failAt) cs1).2 = (writeChunks (init failAt) cs2).2 ∧
+    events (writeChunks (init failAt) cs1).1 = events (writeChunks (init failAt) cs2).1 :=
+  SF.Json.ParseTop.json_chunk_independent failAt cs1 cs2 h
+
+end SF.PropsJson.C02
